@@ -93,6 +93,12 @@ def run(ctx):
     objs = [(name, o) for name, o in zoo()]
     # objects whose state is a temporary scalar (ids of temporaries are reused within one dump)
     objs.append(("scalar-states", [objgen.U.ScalarState(1000.25 + i) for i in range(8)]))
+    # keys whose JSON object names collide with non-finite float keys (refused on the pinned tree; if a tree dumps them, the
+    # archive has to be well-formed all the same)
+    import numpy as _np
+
+    for nm, a, b in (("nan", float("nan"), "NaN"), ("inf", float("inf"), "Infinity"), ("ninf", float("-inf"), "-Infinity")):
+        objs.append((f"collide-{nm}", {a: _np.arange(3.0), b: _np.arange(4.0), "z": [b"x"]}))
     objs.append(("scalar-states-nested", {"a": [objgen.U.ScalarState(0.5), objgen.U.ScalarState(1.5)] * 3, "b": (objgen.U.ScalarState(2.5),)}))
     for i in range(ctx.budget(60, 700)):
         v, sup = g.value(0, supported=True)
